@@ -7,6 +7,7 @@ package aggregator
 // per-message decision is a keyed hash of (seed, agent, replica, kind, second, attempt#).
 
 import (
+	"bytes"
 	"context"
 	"encoding/binary"
 	"errors"
@@ -21,7 +22,9 @@ import (
 	"github.com/VKCOM/tl/pkg/rpc"
 
 	"github.com/VKCOM/statshouse/internal/agent"
+	"github.com/VKCOM/statshouse/internal/compress"
 	"github.com/VKCOM/statshouse/internal/data_model/gen2/tlstatshouse"
+	"github.com/VKCOM/statshouse/internal/verifsim"
 )
 
 const (
@@ -48,6 +51,8 @@ const (
 	w1SaltCH
 	w1SaltCHAmt
 	w1SaltPartitionMode
+	w1SaltCorrupt
+	w1SaltCorruptAmt
 )
 
 type w1Result struct {
@@ -69,6 +74,7 @@ type w1Call struct {
 	conn    *w1Conn
 	dup     bool // duplicate copy of a request: its response goes nowhere
 	payload *w1Payload
+	corrupt bool // the simulator damaged the compressed bucket payload of this request (a duplicate carries the same bytes)
 
 	// under w.mu
 	done      bool // the client-side outcome is decided
@@ -210,12 +216,23 @@ func (c *w1Client) Do(ctx context.Context, network string, address string, req *
 		w.faultLocked("net_delay_response")
 	}
 	call.respDrop = hit(w1SaltDropResp, f.dropResp)
+	if !dropReq && kind <= w1KindHistoric && args != nil && hit(w1SaltCorrupt, f.corrupt) {
+		// net_corrupt_request: the bytes of the compressed bucket payload are damaged on the way (one byte
+		// changed, or the payload cut short) such that they no longer decode to a source bucket
+		if body, how := w1CorruptRequest(call.body, args, amount(w1SaltCorruptAmt, 1<<40)); body != nil {
+			call.body, call.corrupt = body, true
+			w.faultLocked("net_corrupt_request")
+			w.recLocked(w1Rec{typ: w1RecCorrupt, agent: inst.agent, agentGen: inst.gen, replica: c.replica, repGen: call.repGen, kind: kind, T: T, spare: spare, attempt: call.attempt, note: how})
+		} else {
+			w.probeLocked("harness_corruption_candidates_all_decodable")
+		}
+	}
 	dup := !dropReq && kind <= w1KindHistoric && hit(w1SaltDup, f.dup)
 	var dupCall *w1Call
 	if dup {
 		w.nextQID++
 		dupCall = &w1Call{inst: inst, replica: c.replica, repGen: call.repGen, kind: kind, T: T, spare: spare, attempt: call.attempt,
-			body: call.body, qid: w.nextQID, ch: make(chan w1Result, 2), dup: true, payload: call.payload}
+			body: call.body, qid: w.nextQID, ch: make(chan w1Result, 2), dup: true, payload: call.payload, corrupt: call.corrupt}
 		dupCall.conn = &w1Conn{w: w, call: dupCall}
 		w.faultLocked("net_duplicate_request")
 	}
@@ -265,7 +282,7 @@ func (c *w1Client) Do(ctx context.Context, network string, address string, req *
 	}
 	w.mu.Lock()
 	delete(inst.calls, call)
-	rec := w1Rec{typ: w1RecAck, agent: inst.agent, agentGen: inst.gen, replica: c.replica, kind: kind, T: T, attempt: call.attempt}
+	rec := w1Rec{typ: w1RecAck, agent: inst.agent, agentGen: inst.gen, replica: c.replica, kind: kind, T: T, attempt: call.attempt, corrupt: call.corrupt}
 	if res.err != nil {
 		rec.note = "err:" + w1ErrClass(res.err)
 	} else if kind <= w1KindKeepAlive {
@@ -277,7 +294,7 @@ func (c *w1Client) Do(ctx context.Context, network string, address string, req *
 			rec.discard = resp.IsSetDiscard()
 			rec.note = "ok"
 			if kind <= w1KindHistoric && rec.discard && !inst.dead.Load() && call.payload != nil && call.payload.hasMarker {
-				w.noteAckLocked(inst.agent, T)
+				w.noteAckLocked(inst.agent, T, call.corrupt)
 			}
 		}
 	} else {
@@ -309,6 +326,62 @@ func (c *w1Client) deadExit(ctx context.Context, kind int) (*rpc.Response, error
 		return nil, err
 	}
 	return nil, rpc.ErrClientClosed
+}
+
+// w1Undecodable: the bytes are no source bucket for the repository's own decompressor and generated
+// TL reader (the two decoders every receiver of this payload uses). A decoder that panics on them
+// counts as "cannot decode" here; the same bytes then reach the aggregator, where the panic is caught
+// and reported.
+func w1Undecodable(originalSize uint32, compressed []byte) (bad bool) {
+	defer func() {
+		if p := recover(); p != nil {
+			bad = true
+		}
+	}()
+	raw, err := compress.Decompress(originalSize, compressed)
+	if err != nil {
+		return true
+	}
+	var b tlstatshouse.SourceBucket3Bytes
+	_, err = b.ReadTL1Boxed(raw)
+	return err != nil
+}
+
+// w1CorruptRequest damages the compressed bucket payload of a SendSourceBucket3 request: one byte
+// changed or the payload cut short, position and value taken from x. Candidates that still decode
+// (a changed literal byte inside the lz4 block can go unnoticed: the protocol carries no checksum of
+// its own, the transport's CRC is outside this world) are skipped; nil if none of 16 is undecodable.
+// The payload bytes of a second are not replay-stable (item order inside the agent's bucket), so
+// nothing about position or kind of the damage may reach the event log or a decision; only the
+// outcome "these bytes do not decode" does, and that is the same for every execution.
+func w1CorruptRequest(orig []byte, args *tlstatshouse.SendSourceBucket3Bytes, x uint64) (body []byte, how string) {
+	data := args.CompressedData
+	if len(data) == 0 {
+		return nil, ""
+	}
+	if !bytes.Equal(args.WriteTL1Boxed(nil), orig) {
+		panic("w1 harness: re-encoding the decoded SendSourceBucket3 request does not give the bytes the client wrote")
+	}
+	rng := verifsim.NewSplitMix(x)
+	for try := 0; try < 16; try++ {
+		h := rng.Next()
+		mutated := append([]byte(nil), data...)
+		pos := int((h >> 1) % uint64(len(data)))
+		if h&1 == 0 && try < 8 { // the later candidates are all cuts: a cut payload practically never decodes
+			mutated[pos] ^= byte(1 + (h>>41)%255)
+			how = fmt.Sprintf("byte_changed@%d/%d", pos, len(data))
+		} else {
+			mutated = mutated[:pos]
+			how = fmt.Sprintf("cut@%d/%d", pos, len(data))
+		}
+		if !w1Undecodable(args.OriginalSize, mutated) {
+			continue
+		}
+		a := *args
+		a.CompressedData = mutated
+		return a.WriteTL1Boxed(nil), how
+	}
+	return nil, ""
 }
 
 func w1DelayAmount(x uint64) time.Duration { // x in [0,1000): 1 ms .. 8 s, skewed to small values
@@ -358,7 +431,11 @@ func (w *w1World) finish(call *w1Call, res w1Result) {
 
 // deliver runs on a fresh goroutine: the request reaches the aggregator.
 func (w *w1World) deliver(call *w1Call, delay time.Duration) {
-	defer w.guard("aggregator handler")
+	where := "aggregator handler"
+	if call.corrupt {
+		where = "aggregator handler given a request with a damaged bucket payload"
+	}
+	defer w.guard(where)
 	time.Sleep(delay)
 	a, r := call.inst.agent, call.replica
 	w.mu.Lock()
@@ -376,7 +453,8 @@ func (w *w1World) deliver(call *w1Call, delay time.Duration) {
 	now := time.Now()
 	w1SetRequestTime(hctx, now)
 	err := agg.handleClient(context.Background(), hctx)
-	rec := w1Rec{typ: w1RecDeliver, agent: a, agentGen: call.inst.gen, replica: r, repGen: call.repGen, kind: call.kind, T: call.T, spare: call.spare, attempt: call.attempt, dup: call.dup, at: now}
+	rec := w1Rec{typ: w1RecDeliver, agent: a, agentGen: call.inst.gen, replica: r, repGen: call.repGen, kind: call.kind, T: call.T, spare: call.spare, attempt: call.attempt, dup: call.dup, at: now, corrupt: call.corrupt}
+	rec.hasMarker = call.payload != nil && call.payload.hasMarker
 	if hctx.LongpollStarted() {
 		lh := rpc.LongpollHandle{QueryID: call.qid, CommonConn: call.conn}
 		rec.accepted = true
@@ -403,7 +481,7 @@ func (w *w1World) deliver(call *w1Call, delay time.Duration) {
 // long poll). Recorded before the network decides the response's fate.
 func (w *w1World) serverResponse(call *w1Call, body []byte, err error) {
 	body = append([]byte(nil), body...)
-	rec := w1Rec{typ: w1RecResp, agent: call.inst.agent, agentGen: call.inst.gen, replica: call.replica, repGen: call.repGen, kind: call.kind, T: call.T, spare: call.spare, attempt: call.attempt, dup: call.dup, at: time.Now()}
+	rec := w1Rec{typ: w1RecResp, agent: call.inst.agent, agentGen: call.inst.gen, replica: call.replica, repGen: call.repGen, kind: call.kind, T: call.T, spare: call.spare, attempt: call.attempt, dup: call.dup, at: time.Now(), corrupt: call.corrupt}
 	rec.hasMarker = call.payload != nil && call.payload.hasMarker
 	if err != nil {
 		rec.note = "err:" + w1ErrClass(w1ToRPCError(err))
